@@ -230,6 +230,9 @@ class Folder:
             # Class.CONST or module.CONST inside the package
             q = self.m.resolve_name(module, e.value)
             if q in self.m.classes:
+                ci = self.m.classes[q]
+                if any(ast.unparse(b).split(".")[-1] in ("Enum", "IntEnum", "Flag", "IntFlag", "StrEnum") for b in ci.node.bases):
+                    return EnumRef(f"{q}.{e.attr}")  # an enum member is an object of its own, not its value
                 return self.class_const(q, e.attr)
             if q in self.m.modules:
                 return self.module_const(q, e.attr)
